@@ -18,7 +18,7 @@ fn violation_of(r: &Result<RunOut, String>) -> Option<(u32, String)> {
 }
 
 pub fn run(cfg: &Cfg, rep: &mut Report) {
-  let total = cfg.n(60_000, 12_000_000);
+  let total = cfg.n(150_000, 12_000_000);
   let gcfg = GenCfg::full(cfg.n(3, 5), cfg.n(8, 16));
   let mut rng = Rng::new(cfg.seed ^ 0xC01);
   for i in 0..total {
